@@ -107,6 +107,13 @@ struct LockState {
   std::vector<Ended> ended;
   std::vector<Req> reqs;
   int outstanding = 0;
+  // ghost holding intervals stamped with the global event sequence number (each is contained in the real grant interval)
+  struct Held {
+    int vt;
+    uint64_t from, to;  // to == 0: still held
+  };
+  uint64_t held_from[dsim::kMaxVT] = {0};
+  std::vector<Held> held_log;
   bool pending() const { return !pubs.empty() && pubs.back().ret == 0 && pubs.size() > 1; }
   uint32_t committed() const { return pending() ? pubs[pubs.size() - 2].ver : pubs.back().ver; }
 };
@@ -165,6 +172,7 @@ struct Runner {
       ORACLE(tags.c_str(), cls, " :: vt%d obtained %s through %s on lock %d while vt%d holds %s", me, kModeName[m], via, L.idx, u,
              kModeName[L.mode[u]]);
     }
+    if (L.mode[me] == kNone) L.held_from[me] = dsim::seq();
     L.mode[me] = m;
     L.flags[me] = fl;
     L.reg_epoch++;
@@ -173,6 +181,17 @@ struct Runner {
       L.x_epoch++;
     }
   }
+  // some other vthread's ghost grant covers the instant of event `at` (hence the real lock was held at that instant)
+  int other_holder_at(LS &L, uint64_t at) const
+  {
+    const int me = dsim::self();
+    if (at == 0) return -1;
+    for (int u = 0; u < dsim::kMaxVT; ++u)
+      if (u != me && L.mode[u] != kNone && L.held_from[u] < at) return u;
+    for (auto &h : L.held_log)
+      if (h.vt != me && h.from < at && h.to >= at) return h.vt;
+    return -1;
+  }
   void reg_end(LS &L)
   {
     const int me = dsim::self();
@@ -180,6 +199,8 @@ struct Runner {
       L.x_holder = -1;
       L.x_epoch++;
     }
+    if (L.held_log.size() > 96) L.held_log.erase(L.held_log.begin(), L.held_log.begin() + 48);
+    L.held_log.push_back({me, L.held_from[me], dsim::seq()});
     L.mode[me] = kNone;
     L.flags[me] = 0;
     L.reg_epoch++;
@@ -589,8 +610,7 @@ struct Runner {
     }
     // re-register as X (conflict check against everybody else) -- flags keep fConv
     const int fl = L.flags[me];
-    L.mode[me] = kNone;
-    reg_begin(L, kX, fl, "UpgradeToX");
+    reg_begin(L, kX, fl, "UpgradeToX");  // the registration stays continuous (held_from is kept)
     hb_begin(L, kX, "UpgradeToX");
     *acquired = x_begin_version(L, x);
     const uint32_t now = read_payload_locked(L, 0, kX, true);
@@ -962,6 +982,15 @@ struct Runner {
           if (ci.x_at_inv && L.x_holder >= 0 && L.x_epoch == ci.x_epoch_at_inv) {
             ORACLE("[C13]", "PrepareRead-returned-during-x", " :: PrepareRead of vt%d returned an owning guard while vt%d held X on lock %d", dsim::self(),
                    L.x_holder, L.idx);
+          }
+          {
+            // the shared grant must have been taken at an instant when the lock was completely free: no other ghost grant
+            // (each contained in a real grant) may cover the event that took it
+            const int holder = other_holder_at(L, dsim::watched_write_seq());
+            if (holder >= 0) {
+              ORACLE("[C13]", "prepare-read-stacked-shared-grant", " :: PrepareRead of vt%d took its shared grant on lock %d at event %lu while vt%d held a grant",
+                     dsim::self(), L.idx, static_cast<unsigned long>(dsim::watched_write_seq()), holder);
+            }
           }
           granted(L, ci, kS, fPrep, "PrepareRead", false);
           dsim::probe(pPrepFallbackS);
